@@ -1103,6 +1103,7 @@ def _emit_block(
         )
 
     lines: List[str] = []
+    polled_together: set = set()
     for node in nodes:
         if type(node).__name__ == "Repeat":
             count = getattr(node, "count", 0)
@@ -1145,22 +1146,37 @@ def _emit_block(
             continue
 
         if isinstance(node, ButtonPoll):
-            decl = button_decls.get(node.name)
-            if decl is None:
+            if id(node) in polled_together:
                 continue
-            pin_expr = _emit_expr(decl.pin)
-            next_var = f"__redu_button_next_{node.name}"
-            prev_var = f"__redu_button_prev_{node.name}"
-            value_var = f"__redu_button_value_{node.name}"
-            lines.append(
-                f"{indent}bool {next_var} = (digitalRead({pin_expr}) == HIGH);"
-            )
-            if decl.on_click:
-                lines.append(f"{indent}if ({next_var} && !{prev_var}) {{")
-                lines.append(f"{indent}  {decl.on_click}();")
-                lines.append(f"{indent}}}")
-            lines.append(f"{indent}{prev_var} = {next_var};")
-            lines.append(f"{indent}{value_var} = {next_var};")
+            # All buttons are sampled first and their samples published before any
+            # click handler runs: a handler (or what it calls) may ask any button,
+            # including its own, whether it is pressed in this pass.
+            start = nodes.index(node)
+            group = []
+            for later in nodes[start:]:
+                if not isinstance(later, ButtonPoll):
+                    break
+                polled_together.add(id(later))
+                if button_decls.get(later.name) is not None:
+                    group.append(later)
+            for poll in group:
+                pin_expr = _emit_expr(button_decls[poll.name].pin)
+                lines.append(
+                    f"{indent}bool __redu_button_next_{poll.name} = (digitalRead({pin_expr}) == HIGH);"
+                )
+            for poll in group:
+                lines.append(
+                    f"{indent}__redu_button_value_{poll.name} = __redu_button_next_{poll.name};"
+                )
+            for poll in group:
+                decl = button_decls[poll.name]
+                next_var = f"__redu_button_next_{poll.name}"
+                prev_var = f"__redu_button_prev_{poll.name}"
+                if decl.on_click:
+                    lines.append(f"{indent}if ({next_var} && !{prev_var}) {{")
+                    lines.append(f"{indent}  {decl.on_click}();")
+                    lines.append(f"{indent}}}")
+                lines.append(f"{indent}{prev_var} = {next_var};")
             continue
 
         if isinstance(node, ServoDecl):
